@@ -150,5 +150,12 @@ def r4(ctx):
                   'a Send is built on a path that did not store the new request identifier', s.where())
 
 
-RULES = [r1, r2, r3, r4]
-FLOORS = {'C08-R1': 15, 'C08-R2': 6, 'C08-R3': 6, 'C08-R4': 4}
+def r5(ctx):
+    ctx.rule('C08-R5', 'NtpPacket::is_kiss is `stratum == 0` for every header version (V3, V4, V5): the kiss arms of handle_incoming, which keep kiss packets '
+             'away from process_message, all hang on it')
+    from rules import C09
+    C09.is_kiss_all_versions(ctx)
+
+
+RULES = [r1, r2, r3, r4, r5]
+FLOORS = {'C08-R1': 15, 'C08-R2': 6, 'C08-R3': 6, 'C08-R4': 4, 'C08-R5': 1}
